@@ -372,10 +372,12 @@ func compactPath(p *Path) string {
 	return strings.Join(s, " ; ")
 }
 
-func (x *client) getReplyRules() {
+func (x *client) getReplyRules() { x.getReplyRulesAs("C08.R2", "C08.R3") }
+
+func (x *client) getReplyRulesAs(idR2, idR3 string) {
 	r := x.r
 	fn := x.getReply
-	r.Rule("C08.R2", "own request only: getReply returns a message only on the Header.Seq == seq edge; the receive loop is re-entered without returning only under Header.Seq == 0 && seq != 0", 3)
+	r.Rule(idR2, "own request only: getReply returns a message only on the Header.Seq == seq edge; the receive loop is re-entered without returning only under Header.Seq == 0 && seq != 0", 3)
 	var recv *ssa.Call
 	for _, c := range callsNamedIn(fn, "invoke:libaudit.NetlinkSendReceiver.Receive") {
 		if cc, ok := c.(*ssa.Call); ok {
@@ -481,7 +483,7 @@ func (x *client) getReplyRules() {
 	}
 	r.Check(okRe, "getReply re-entry condition", outer.Header.Instrs[0].Pos(), "receiveMore ⇒ Seq == 0 ∧ seq != 0", detail)
 
-	r.Rule("C08.R3", "bounded transient retry: the receive loop is counted with a constant bound >= 10; it continues only on errors.Is(err, EINTR) / errors.Is(err, EAGAIN); any other error is returned wrapped; running out of attempts returns an error", 4)
+	r.Rule(idR3, "bounded transient retry: the receive loop is counted with a constant bound >= 10; it continues only on errors.Is(err, EINTR) / errors.Is(err, EAGAIN); any other error is returned wrapped; running out of attempts returns an error", 4)
 	ih, _ := inner.Header.Instrs[len(inner.Header.Instrs)-1].(*ssa.If)
 	okCnt := false
 	if ih != nil {
@@ -869,6 +871,9 @@ func propC17(r *Run, w *World) {
 	if !x.ok {
 		return
 	}
+	// "consumed exactly once" needs getReply to hand over the acknowledgement whenever it has
+	// taken it off the socket, and only that one (shared with C08.R2 / C08.R3)
+	x.getReplyRulesAs("C17.R6", "C17.R7")
 	// R1
 	r.Rule("C17.R1", "consumed means removed: on every path from the success edge of a getReply on a pending sequence to the next such read or to any exit, pendingAcks is stored with a value that no longer contains that element", 1)
 	{
